@@ -23,5 +23,11 @@ def setup():
   common.setup()
 
 
+def _pre(tape, spec):
+  # 15% of the runs: the same Test object has completed an undisturbed execution before the
+  # observed (aborted) one
+  spec['prior_run'] = tape.chance(150, 'prior_run')
+
+
 def run_one(tape):
-  return common.run_with(tape, PROF, [oracles.c03])
+  return common.run_with(tape, PROF, [oracles.c03], pre=_pre)
